@@ -68,7 +68,14 @@ SmallCases ==
     UNION {{Mk(op, ms, Normals[j], dn, Motions[t]) @@ [sc |-> -10] : dn \in Offsets(ms.vpos, Normals[j]), op \in {"section", "split"}}
            : ms \in {m \in Meshes : m.name \in {"box", "tetra"}}, j \in {1, 4, 7}, t \in 1..2}
 
-Init == case \in Cases \cup SmallCases
+\* watertight meshes built with the solid flag (1) and convex hulls of convex meshes (2): a split may not add or lose surface
+SolidCases ==
+    UNION {{Mk("split", ms, Normals[j], dn, Motions[t]) @@ [solid |-> k] : dn \in Offsets(ms.vpos, Normals[j]), k \in {1, 2}}
+           : ms \in {m \in Meshes : m.name \in {"box", "tetra"}}, j \in {1, 4}, t \in 1..2} \cup
+    UNION {{Mk(op, ms, Normals[j], dn, Motions[1]) @@ [solid |-> 1] : dn \in Offsets(ms.vpos, Normals[j]), op \in {"section", "split"}}
+           : ms \in {m \in Meshes : m.name \in {"lprism", "twoboxes"}}, j \in {2, 4}}
+
+Init == case \in Cases \cup SmallCases \cup SolidCases
 Next == UNCHANGED case
 Spec == Init /\ [][Next]_case
 Emit == PrintT(<<"CASE", ToJson(case)>>)
